@@ -9,12 +9,13 @@
   PART C  the SPECIFICATION (`HasSig`, `HasInner`, `PortHasKind`), transcribed from
           `specification/hugr.md` and `hugr-core/src/ops/*.rs` — not from the Python.
 
-  The model follows the REPAIRED code (F05–F09, F31): see the comments marked `[F..]`.
+  The model follows the REPAIRED code (F05–F09, F31, F35 `LoadFunc.num_out`, F36 `ExtOp` description):
+  see the comments marked `[F..]`.
 
   One constructor per Python op class that can sit in a HUGR.  `None` fields (`_types`, `_outputs`,
   …) model incompleteness: every accessor going through `_check_complete` yields `.incompleteOp`.
   The sugar tag classes `Some / Left / Right / Continue / Break` only run `Tag.__init__` with
-  particular arguments and are functions building `Op.tag` (`Op.some`, `Op.left`, …).
+  particular arguments and are functions building `Op.tag` (`Op.tagSome`, `Op.tagLeft`, …).
   The dataclass fields `num_out` (`field(default=…)`) are never assigned by the library and are
   modelled by the constant they default to.
 -/
@@ -137,14 +138,14 @@ namespace Op
 
 /-! ### sugar tag operations (`ops.py:559-611`) -/
 /-- `Some(*tys)`: `Tag(1, Option(*tys))` -/
-def some (tys : List Ty) : Op := .tag 1 (.general [[], tys])
+def tagSome (tys : List Ty) : Op := .tag 1 (.general [[], tys])
 /-- `Left(Either(l, r))`: `Tag(0, either)` -/
-def left (l r : List Ty) : Op := .tag 0 (.general [l, r])
+def tagLeft (l r : List Ty) : Op := .tag 0 (.general [l, r])
 /-- `Right(Either(l, r))`: `Tag(1, either)` -/
-def right (l r : List Ty) : Op := .tag 1 (.general [l, r])
+def tagRight (l r : List Ty) : Op := .tag 1 (.general [l, r])
 /-- `Continue` is `Left`, `Break` is `Right` (only `__repr__` differs). -/
-def continue_ (l r : List Ty) : Op := left l r
-def break_ (l r : List Ty) : Op := right l r
+def tagContinue (l r : List Ty) : Op := tagLeft l r
+def tagBreak (l r : List Ty) : Op := tagRight l r
 
 /-- `_check_complete` -/
 def need {α : Type} : Option α → Except OpErr α
@@ -250,7 +251,7 @@ def numOut : Op → Except OpErr Nat
   -- [F08] `len(self.instantiation.output)` (was: the polymorphic body's)
   | .call _ inst _ => .ok inst.out.length
   | .callIndirect s? => do let s ← need s?; pure s.out.length
-  | .loadFunc .. => .ok 1
+  | .loadFunc .. => .ok 1        -- [F35] a property returning 1 (the class attribute was a `dataclasses.Field`)
   | .aliasDecl .. => .ok 0
   | .aliasDefn .. => .ok 0
 
@@ -438,7 +439,7 @@ def encCustom (parent : Int) (opName : String) (sig : Sig) (description ext : St
   pure (.obj [("parent", .int parent), ("op", .str "Extension"), ("extension", .str ext), ("name", .str opName),
     ("signature", s), ("description", .str description), ("args", a)])
 
-/-- `ExtOp.to_custom_op()`: `(op_name, signature, extension)`; description is not carried. -/
+/-- `ExtOp.to_custom_op()`: `(op_name, signature, extension)`; the description is the definition's [F36]. -/
 def extOpCustom (d : OpDefRef) (sig? : Option Sig) : Except OpErr (String × Sig × String) := do
   let sig ← match sig? with
     | .some s => pure s
@@ -448,13 +449,12 @@ def extOpCustom (d : OpDefRef) (sig? : Option Sig) : Except OpErr (String × Sig
       | .some p => if p.params.length > 0 then throw OpErr.valueError else pure p.body
   pure (d.name, sig, match d.ext with | .some e => e | .none => "")
 
-/-- The `ExtOp` an `AsExtOp` of the prelude stands for, as `to_custom_op()` renders it:
-    name, signature (with the `prelude` requirement added by `instantiate`), type arguments. -/
-def preludeCustom : Op → Option (String × Sig × List TypeArg)
-  | .makeTuple (.some ts) => .some ("MakeTuple", ⟨ts, [Ty.tuple ts], ["prelude"]⟩, [.sequence (ts.map .type)])
-  | .unpackTuple (.some ts) => .some ("UnpackTuple", ⟨[Ty.tuple ts], ts, ["prelude"]⟩, [.sequence (ts.map .type)])
-  | .noop (.some t) => .some ("Noop", ⟨[t], [t], ["prelude"]⟩, [.type t])
-  | _ => .none
+/-- Descriptions of the prelude operation definitions the `AsExtOp` classes refer to
+    (`std/_json_defs/prelude.json`, `operations.<name>.description`); carried into the encoding by
+    `ExtOp.to_custom_op` [F36]. -/
+def descMakeTuple : String := "MakeTuple operation"
+def descUnpackTuple : String := "UnpackTuple operation"
+def descNoop : String := "Noop gate"
 
 /-- `_to_serial(Node(parent)).model_dump()`; the argument expressions are evaluated in the order
     the Python writes them. -/
@@ -467,16 +467,16 @@ def encOp (op : Op) (parent : Int) : Except OpErr Json :=
   | .custom n sig d e args => encCustom parent n sig d e args
   | .extOp d sig? args => do
     let (n, sig, e) ← extOpCustom d sig?
-    encCustom parent n sig "" e args
+    encCustom parent n sig d.description e args
   | .makeTuple ts? => do
     let ts ← need ts?
-    encCustom parent "MakeTuple" ⟨ts, [Ty.tuple ts], ["prelude"]⟩ "" "prelude" [.sequence (ts.map .type)]
+    encCustom parent "MakeTuple" ⟨ts, [Ty.tuple ts], ["prelude"]⟩ descMakeTuple "prelude" [.sequence (ts.map .type)]
   | .unpackTuple ts? => do
     let ts ← need ts?
-    encCustom parent "UnpackTuple" ⟨[Ty.tuple ts], ts, ["prelude"]⟩ "" "prelude" [.sequence (ts.map .type)]
+    encCustom parent "UnpackTuple" ⟨[Ty.tuple ts], ts, ["prelude"]⟩ descUnpackTuple "prelude" [.sequence (ts.map .type)]
   | .noop t? => do
     let t ← need t?
-    encCustom parent "Noop" ⟨[t], [t], ["prelude"]⟩ "" "prelude" [.type t]
+    encCustom parent "Noop" ⟨[t], [t], ["prelude"]⟩ descNoop "prelude" [.type t]
   | .tag tg s => do pure (hd "Tag" [("tag", .int tg), ("variants", ← encRowsJ s.rows)])
   | .dfg i o? d => do let o ← need o?; pure (hd "DFG" [("signature", ← encSig ⟨i, o, d⟩)])
   | .cfg i o? => do let o ← need o?; pure (hd "CFG" [("signature", ← encSig ⟨i, o, []⟩)])
@@ -743,13 +743,15 @@ def norm (nv : Value → Value) : Op → Op
   | .custom n s d e a => .custom n s.norm d e (Ty.normArgs a)
   | .extOp d sig? a =>
     match extOpCustom d sig? with
-    | .ok (n, s, e) => .custom n s.norm "" e (Ty.normArgs a)
+    | .ok (n, s, e) => .custom n s.norm d.description e (Ty.normArgs a)
     | .error _ => .extOp d sig? a
   | .makeTuple (.some ts) =>
-    .custom "MakeTuple" (Sig.norm ⟨ts, [Ty.tuple ts], ["prelude"]⟩) "" "prelude" (Ty.normArgs [.sequence (ts.map .type)])
+    .custom "MakeTuple" (Sig.norm ⟨ts, [Ty.tuple ts], ["prelude"]⟩) descMakeTuple "prelude"
+      (Ty.normArgs [.sequence (ts.map .type)])
   | .unpackTuple (.some ts) =>
-    .custom "UnpackTuple" (Sig.norm ⟨[Ty.tuple ts], ts, ["prelude"]⟩) "" "prelude" (Ty.normArgs [.sequence (ts.map .type)])
-  | .noop (.some t) => .custom "Noop" (Sig.norm ⟨[t], [t], ["prelude"]⟩) "" "prelude" (Ty.normArgs [.type t])
+    .custom "UnpackTuple" (Sig.norm ⟨[Ty.tuple ts], ts, ["prelude"]⟩) descUnpackTuple "prelude"
+      (Ty.normArgs [.sequence (ts.map .type)])
+  | .noop (.some t) => .custom "Noop" (Sig.norm ⟨[t], [t], ["prelude"]⟩) descNoop "prelude" (Ty.normArgs [.type t])
   | .tag t s => .tag t (.general (Ty.normRows s.rows))
   | .dfg i (.some o) d => .dfg (Ty.normRow i) (.some (Ty.normRow o)) d
   | .cfg i (.some o) => .cfg (Ty.normRow i) (.some (Ty.normRow o))
@@ -888,6 +890,29 @@ def hasOrderPort : Op → Dir → Bool
   | .noop _, _ | .tag .., _ | .dfg .., _ | .cfg .., _ | .loadConst _, _ | .conditional .., _
   | .tailLoop .., _ | .callIndirect _, _ | .call .., _ | .loadFunc .., _ => true
   | _, _ => false
+
+/-- Computable views of the layout, compared with the specification's own table "Appendix 2: Node
+    types and their edges" (translated into `Gen/SpecEdges.lean`) in `Props/C06.lean`. -/
+def staticTag : Op → Dir → Option String
+  | .call .., .inc => some "function"
+  | .loadFunc .., .inc => some "function"
+  | .loadConst _, .inc => some "const"
+  | .funcDefn .., .out => some "function"
+  | .funcDecl .., .out => some "function"
+  | .const _, .out => some "const"
+  | _, _ => none
+
+def cfPort : Op → Dir → Bool
+  | .dataflowBlock .., _ => true
+  | .exitBlock _, .inc => true
+  | _, _ => false
+
+def kindTag : Kind → String
+  | .value _ => "value"
+  | .const _ => "const"
+  | .function _ => "function"
+  | .cf => "cf"
+  | .order => "order"
 
 /-- **The port layout** (DESIGN.md §4.1; `ops.rs:172-198`): the value ports of the dataflow signature,
     then one static port if any, then the order port (which the Python addresses as offset −1);
